@@ -32,6 +32,15 @@ inductive Pred where
   | setBased (occs : List TS)
   deriving Repr
 
+/-- `prediction is not None` / `is None` and `type(prediction) is SetBasedPrediction` on the modelled prediction. -/
+def Pred.isSome : Pred → Bool
+  | .none => false
+  | _ => true
+def Pred.isNone (p : Pred) : Bool := !p.isSome
+def Pred.isSetBased : Pred → Bool
+  | .setBased _ => true
+  | _ => false
+
 /-- What an obstacle answers for its occupancy. -/
 inductive Occ where
   | init            -- shape placed at the initial state
@@ -68,6 +77,11 @@ def predOccAt : Pred → Int → Option Occ
   | .none, _ => none
   | .traj _ ts, t => (findIdx (fun s => s == t) ts 0).map Occ.placed
   | .setBased occs, t => (findIdx (fun o => o.contains t) occs 0).map Occ.stored
+
+/-- `prediction.trajectory.state_at_time_step(t)` (only a trajectory prediction has a trajectory). -/
+def Pred.trajStateAt : Pred → Int → Option StRef
+  | .traj t0 ts, t => (CR.Occ.trajStateAt t0 ts.length t).map StRef.traj
+  | _, _ => Option.none
 
 def occupancyAt : Obst → Int → Option Occ
   | .static _, _ => some .init
